@@ -21,6 +21,7 @@ type Case struct {
 	D     []TEdge `json:"data"` // the data set, in the application's order
 	Tie   string  `json:"tie"`
 	Async string  `json:"async"`
+	Empty string  `json:"empty_as"` // how the getter represents an empty range: empty | typed-nil | untyped-nil
 	Seed  uint64  `json:"seed"`
 	Req   *TReq   `json:"req,omitempty"`
 	Walk  *TWalk  `json:"walk,omitempty"`
@@ -292,12 +293,29 @@ func callTriples(cs []getterCall) []string {
 	return out
 }
 
+// deliveryOracle: the response must not depend on how the getter delivers its replies (slice,
+// promise, mixed) nor on how it represents an empty range. Evaluated on one case in four (by the
+// case's seed) and on every case of the one-by-one path: the same case is served again with the
+// plain synchronous getter returning non-nil slices and the bodies must be identical.
+func (h *harness) deliveryOracle(c Case, o servedObs, always bool) failure {
+	plain := c.Async == "sync" && (c.Empty == "" || c.Empty == "empty")
+	if plain || o.Panic != "" || (!always && c.Seed%4 != 0) {
+		return failure{}
+	}
+	ref := h.w.serve(c.D, c.Tie, "sync", "empty", c.Seed, *c.Req)
+	h.run.Count("delivery-independence-checked")
+	if ref.Panic == "" && ref.Body != o.Body {
+		return failure{fmt.Sprintf("the response depends on the getter's delivery: with %s delivery and empty ranges as %q the server answers %s, with a synchronous getter returning non-nil slices %s", c.Async, c.Empty, o.Body, ref.Body), "property", "delivery"}
+	}
+	return failure{}
+}
+
 func (h *harness) evalServedObs(c Case) (o servedObs, f failure) {
 	r := *c.Req
 	if h.announce != nil {
 		h.announce(c)
 	}
-	o = h.w.serve(c.D, c.Tie, c.Async, c.Seed, r)
+	o = h.w.serve(c.D, c.Tie, c.Async, c.Empty, c.Seed, r)
 	canon, _ := servedCanon(c.D, o)
 	if h.verbose {
 		fmt.Printf("request:        %s\n", func() string { q, v := r.build(); b, _ := json.Marshal(v); return q + " " + string(b) }())
@@ -305,7 +323,10 @@ func (h *harness) evalServedObs(c Case) (o servedObs, f failure) {
 		fmt.Printf("response:       %s\n", o.Body)
 		fmt.Printf("implementation: %s\n", canon)
 	}
-	if f = servedOracle(c.D, r, o); !f.ok() {
+	if f = servedOracle(c.D, r, o); f.ok() {
+		f = h.deliveryOracle(c, o, true)
+	}
+	if !f.ok() {
 		if h.verbose && h.model != nil {
 			if line, p := h.modelLine(c, o); p == "" {
 				rep, _ := h.model.Ask(line)
@@ -380,7 +401,7 @@ func (h *harness) evalWalk(c Case) failure {
 		} else {
 			r.Last, r.Before = &n, cur
 		}
-		step := Case{Kind: "served", D: c.D, Tie: c.Tie, Async: c.Async, Seed: c.Seed + uint64(pages), Req: &r}
+		step := Case{Kind: "served", D: c.D, Tie: c.Tie, Async: c.Async, Empty: c.Empty, Seed: c.Seed + uint64(pages), Req: &r}
 		o, f := h.evalServedObs(step)
 		if !f.ok() {
 			f.What = fmt.Sprintf("page %d of the walk: %s", pages, f.What)
@@ -613,7 +634,7 @@ func (h *harness) classify(c Case, f failure) string {
 	h.verbose = false
 	defer func() { h.verbose = verbose }()
 	if c.Kind == "served" {
-		o := h.w.serve(c.D, c.Tie, c.Async, c.Seed, *c.Req)
+		o := h.w.serve(c.D, c.Tie, c.Async, c.Empty, c.Seed, *c.Req)
 		calls = o.Calls
 	} else {
 		calls = h.walkCalls(c)
@@ -642,7 +663,7 @@ func (h *harness) walkCalls(c Case) []getterCall {
 		} else {
 			r.Last, r.Before = &n, cur
 		}
-		o := h.w.serve(c.D, c.Tie, c.Async, c.Seed+uint64(pages), r)
+		o := h.w.serve(c.D, c.Tie, c.Async, c.Empty, c.Seed+uint64(pages), r)
 		all = append(all, o.Calls...)
 		s := o.End
 		more := o.HasNext
@@ -703,6 +724,7 @@ func (h *harness) shrink(c Case, f failure, key string) (Case, failure) {
 		}
 		muts := []func(d *Case) bool{
 			func(d *Case) bool { ok := d.Async != "sync"; d.Async = "sync"; return ok },
+			func(d *Case) bool { ok := d.Empty != "" && d.Empty != "empty"; d.Empty = "empty"; return ok },
 			func(d *Case) bool { ok := d.Tie == "seeded"; d.Tie = "reverse-id"; return ok },
 			func(d *Case) bool { ok := d.Tie != "id"; d.Tie = "id"; return ok },
 			func(d *Case) bool {
@@ -848,6 +870,11 @@ func (h *harness) count(c Case, f failure) {
 	if c.Kind == "served" || c.Kind == "walk" {
 		h.run.Count("getter-tie-break:" + c.Tie)
 		h.run.Count("getter-delivery:" + c.Async)
+		e := c.Empty
+		if e == "" {
+			e = "empty"
+		}
+		h.run.Count("getter-empty-range-as:" + e)
 	}
 	if c.Kind == "served" {
 		r := c.Req
@@ -900,8 +927,9 @@ func (h *harness) record(c Case, f failure) {
 	case "served":
 		h.run.Oblige("correspondence: served TimeBasedConnection = model resolveTime (edges, page info, totalCount | error class, getter (min,max,limit) triples); Lean timeRef = Go TimeRef", "correspondence", 1, f.Kind != "correspondence", f.What)
 		h.run.Oblige("oracle: every returned edge satisfies every client filter", "oracle", 1, !(propFail && f.Mode == "filter"), f.What)
-		h.run.Oblige("oracle: response = TimeRef (edges, cursors, required flags) for a getter that breaks ties by id", "oracle", 1, !(propFail && f.Mode != "filter" && f.Mode != "cover" && fk == ""), f.What)
+		h.run.Oblige("oracle: response = TimeRef (edges, cursors, required flags) for a getter that breaks ties by id", "oracle", 1, !(propFail && f.Mode != "filter" && f.Mode != "cover" && f.Mode != "delivery" && fk == ""), f.What)
 		h.run.Oblige("oracle: the issued range queries cover every edge of the answer", "oracle", 1, !(propFail && f.Mode == "cover"), f.What)
+		h.run.Oblige("oracle: response independent of the getter's delivery (sync/promise/mixed) and of nil vs empty replies", "oracle", 1, !(propFail && f.Mode == "delivery"), f.What)
 	case "walk":
 		h.run.Oblige("oracle: forward/backward walks visit every matching edge exactly once (getter breaking ties by id)", "oracle", 1, f.ok() || fk != "", f.What)
 	case "queries":
@@ -966,8 +994,12 @@ func (h *harness) flush() {
 		if h.announce != nil {
 			h.announce(c)
 		}
-		o := h.w.serve(c.D, c.Tie, c.Async, c.Seed, r)
+		o := h.w.serve(c.D, c.Tie, c.Async, c.Empty, c.Seed, r)
 		if f := servedOracle(c.D, r, o); !f.ok() {
+			h.check(c)
+			continue
+		}
+		if f := h.deliveryOracle(c, o, false); !f.ok() {
 			h.check(c)
 			continue
 		}
